@@ -164,14 +164,9 @@ pub fn run_one(spec: &ProcSpec, dir: &Path) -> ProcOut {
     } else {
         cmd.stdin(Stdio::null());
     }
-    // own process group so that a timeout kills grandchildren as well
-    unsafe {
-        cmd.pre_exec(|| {
-            libc::setpgid(0, 0);
-            libc::umask(0o022);
-            Ok(())
-        });
-    }
+    // own process group so that a timeout kills grandchildren as well (process_group keeps the fast
+    // posix_spawn path; the umask is set once in the explorer)
+    cmd.process_group(0);
     let start = Instant::now();
     let mut child = match cmd.spawn() {
         Ok(c) => c,
